@@ -1102,7 +1102,6 @@ func fabricated(s Src, slot string, allowedConst map[string]bool) string {
 	return "unrecognised origin"
 }
 
-
 // sliceAfterMatchParam: idiom (iii) in a helper that receives the string and
 // the match text as parameters, S[len(M0)+c:] with c <= 1: decided at every
 // static call site of the helper (M0 is element 0 of a match of S anchored at
@@ -1231,7 +1230,6 @@ func sliceAfterMatchParam(p *Prog, s *ssa.Slice) (bool, string) {
 	}
 	return true, fmt.Sprintf("(iii') at each of the %d call sites S[len(M[0])+%d:] with M a start-anchored match of S on the edge len(S) != len(M[0])", len(sites), cst)
 }
-
 
 // sameFieldLoad: a and b are two loads of the same field path of the same
 // base value, with no store to that field in the function (the line field
